@@ -209,7 +209,7 @@ func Gen(t *rapid.T, tier string) any {
 			op.Ci = genRef(t, n, "r_ci", 1, 6, 2, 2, 0)
 			op.Host = genHost(t, n, "r_host")
 			op.Prl = rapid.IntRange(0, 2).Draw(t, "r_prl") == 0
-		case k < 59:
+		case k < 57:
 			op.K = "decline"
 			if rapid.IntRange(0, 3).Draw(t, "x_via_ci") == 0 {
 				op.Ci = genRef(t, n, "x_ci", 3, 3, 2, 2, 0)
@@ -417,6 +417,11 @@ type client struct {
 	acked   netip.Addr
 }
 
+type holder struct {
+	mac string
+	exp time.Time
+}
+
 type reservation struct {
 	IP   netip.Addr
 	Host string
@@ -440,6 +445,14 @@ type node struct {
 	staleSig string
 	// nTolerated counts the listed findings carried past in this case.
 	nTolerated int
+	// held is the clients' side of the protocol: address -> the client that
+	// was acknowledged that address and until when it may use it.  It is
+	// cleared when the client gives the address up (RELEASE, DECLINE), is
+	// refused (NAK), or the administrator's operations / a restart removed the
+	// lease from the table (those removals are judged by the other checks).
+	held map[netip.Addr]holder
+	// heldAfterMsg applies the current message exchange to held.
+	heldAfterMsg func()
 	opIdx    int
 	op      Op
 }
@@ -774,6 +787,11 @@ func (n *node) check(before []lease, resvBefore map[string]reservation, replies 
 		if (r.Type != dhcpv4.MessageTypeOffer && r.Type != dhcpv4.MessageTypeAck) || !r.Yi.IsValid() || r.Yi.IsUnspecified() {
 			continue
 		}
+		if h, ok := n.held[r.Yi]; ok && h.mac != mac && h.exp.After(now) {
+			if err = n.report(kernel.Violationf("address-given-while-held", "the server answered %s to %s although %s was acknowledged that address until t=%s, has not released it and no administrator operation revoked it; table before %v", r, mac, h.mac, h.exp.Sub(kernel.Epoch), sortedStrings(before)), r.Yi.String()); err != nil {
+				return err
+			}
+		}
 		if rv, ok := n.resv[mac]; ok {
 			n.c.Probe("reply_to_reserved_client")
 			if r.Yi != rv.IP {
@@ -896,12 +914,20 @@ func (n *node) check(before []lease, resvBefore map[string]reservation, replies 
 	}
 	for _, m := range sortedKeys(n.resv) {
 		if g, ok := gotResv[m]; !ok || g.IP != n.resv[m].IP {
-			return n.report(kernel.Violationf("reservation-lost", "the API confirmed a reservation %s -> %s which the table does not hold (table: %v)", m, n.resv[m].IP, sortedStrings(tbl)), m)
+			if err = n.report(kernel.Violationf(n.afterOp("reservation-lost"), "the API confirmed a reservation %s -> %s which the table no longer holds (table: %v)", m, n.resv[m].IP, sortedStrings(tbl)), m); err != nil {
+				return err
+			}
+			// Listed finding: the reservation is really gone, carry on
+			// without it.
+			delete(n.resv, m)
 		}
 	}
 	for _, m := range sortedKeys(gotResv) {
 		if _, ok := n.resv[m]; !ok {
-			return n.report(kernel.Violationf("reservation-unexpected", "the table holds a static lease for %s at %s which no successful API call created or which was removed", m, gotResv[m].IP), m)
+			if err = n.report(kernel.Violationf(n.afterOp("reservation-unexpected"), "the table holds a static lease for %s at %s which no successful API call created or which was removed", m, gotResv[m].IP), m); err != nil {
+				return err
+			}
+			n.resv[m] = gotResv[m]
 		}
 	}
 
@@ -988,8 +1014,20 @@ func (n *node) check(before []lease, resvBefore map[string]reservation, replies 
 				n.c.Probe("discover_new_client_free_address")
 			default:
 				n.c.Fault("pool_exhausted")
-				if offered {
-					n.c.Probe("offer_despite_exhaustion")
+			}
+			if offered {
+				held := map[netip.Addr]bool{}
+				for _, l := range before {
+					held[l.IP] = true
+				}
+				full := true
+				for i := 0; i < n.sc.Pool; i++ {
+					full = full && held[poolAddr(i)]
+				}
+				if full {
+					// Every pool address had an entry: the offer re-uses an
+					// expired or merely offered one.
+					n.c.Probe("offer_recycled_entry")
 				}
 			}
 		}
@@ -1248,6 +1286,30 @@ func (n *node) step(i int, op Op) error {
 		if len(replies) == 0 {
 			c.Probe("silent")
 		}
+		n.heldAfterMsg = func() {
+			me := macOf(op.M).String()
+			drop := op.K == "release" || op.K == "decline"
+			for _, r := range replies {
+				drop = drop || r.Type == dhcpv4.MessageTypeNak
+			}
+			if drop {
+				for _, a := range sortedAddrs(n.held) {
+					if n.held[a].mac == me {
+						delete(n.held, a)
+					}
+				}
+			}
+			for _, r := range replies {
+				if op.K == "request" && r.Type == dhcpv4.MessageTypeAck && r.Yi.IsValid() && !r.Yi.IsUnspecified() {
+					for _, a := range sortedAddrs(n.held) {
+						if n.held[a].mac == me {
+							delete(n.held, a)
+						}
+					}
+					n.held[r.Yi] = holder{mac: me, exp: time.Now().Add(time.Duration(n.sc.LeaseSec) * time.Second)}
+				}
+			}
+		}
 		if op.K == "decline" && len(replies) > 0 && replies[0].Type == dhcpv4.MessageTypeAck && replies[0].Yi.IsValid() && !replies[0].Yi.IsUnspecified() {
 			c.Probe("decline_reallocated")
 		}
@@ -1322,7 +1384,38 @@ func (n *node) step(i int, op Op) error {
 		c.Probe("ops_after_taint")
 		return nil
 	}
-	return n.check(before, resvBefore, replies, time.Now())
+	err = n.check(before, resvBefore, replies, time.Now())
+	// The clients' view follows the exchange (after the check, which judges
+	// the reply against the view before it).
+	if n.heldAfterMsg != nil {
+		n.heldAfterMsg()
+		n.heldAfterMsg = nil
+	}
+	if msgTypes[op.K] == 0 && op.K != "advance" {
+		// Administrator operation or restart: leases it removed from the
+		// table are revoked (whether it may do so is judged by I6/I7 and the
+		// reservation checks).
+		for _, a := range sortedAddrs(n.held) {
+			backed := false
+			for _, l := range tbl {
+				backed = backed || (l.IP == a && l.MAC == n.held[a].mac)
+			}
+			if !backed {
+				delete(n.held, a)
+				c.Probe("held_lease_revoked_by_admin_or_restart")
+			}
+		}
+	}
+	return err
+}
+
+func sortedAddrs(m map[netip.Addr]holder) []netip.Addr {
+	out := make([]netip.Addr, 0, len(m))
+	for a := range m {
+		out = append(out, a)
+	}
+	sort.Slice(out, func(i, j int) bool { return out[i].Less(out[j]) })
+	return out
 }
 
 // Run executes one scenario.
@@ -1338,7 +1431,7 @@ func Run(t *testing.T, scAny any, c *kernel.Ctx) error {
 	defer os.RemoveAll(dir)
 	return kernel.Bubble(t, func() error {
 		time.Sleep(time.Duration(sc.StartMs) * time.Millisecond)
-		n := &node{dir: dir, sc: sc, c: c, clients: make([]client, sc.Macs), resv: map[string]reservation{}, seen: map[string]bool{}}
+		n := &node{dir: dir, sc: sc, c: c, clients: make([]client, sc.Macs), resv: map[string]reservation{}, seen: map[string]bool{}, held: map[netip.Addr]holder{}}
 		if err := n.open(); err != nil {
 			return err
 		}
@@ -1372,5 +1465,5 @@ var Prop = &kernel.Property{
 	Assumptions: []string{"reservations are what the static-lease API itself confirmed with 200", "a lease is unexpired while its expiry is after now; at the exact expiry instant an address counts as taken for the offer-liveness clause only", "addresses merely offered (never acknowledged) do not count as leased for the offer-liveness clause", "expiry is compared at one-second resolution across disk and restart", "all-zero MAC (the implementation's conflict marker) and 8/20-byte hardware addresses are not generated", "after a listed finding that leaves the table persistently corrupt (same lease listed twice) the rest of that case only looks for crashes"},
 	FaultKinds:  []string{"clean_restart", "clock_jump_past_lease_time", "pool_exhausted", "client_wrong_server_id"},
 	ProbeNames: []string{"offer", "ack", "nak", "silent", "dynamic_lease_acked", "static_lease_acked", "reply_to_reserved_client", "static_added", "static_added_outside_pool", "static_updated", "static_removed", "static_remove_hit_dynamic", "static_rejected",
-		"decline_reallocated", "release_removed_lease", "discover_new_client_free_address", "offer_despite_exhaustion", "expired_lease_in_table", "restart_with_leases", "shadow_restart_checked", "reservation_dropped_by_restart", "restart_from_stale_disk", "table_dup_seen", "table_invariant_broken_seen", "disk_differs_seen", "ops_after_taint"},
+		"decline_reallocated", "release_removed_lease", "discover_new_client_free_address", "offer_recycled_entry", "expired_lease_in_table", "restart_with_leases", "shadow_restart_checked", "held_lease_revoked_by_admin_or_restart", "reservation_dropped_by_restart", "restart_from_stale_disk", "table_dup_seen", "table_invariant_broken_seen", "disk_differs_seen", "ops_after_taint"},
 }
